@@ -78,16 +78,18 @@ def handle (j : Json) : Except String Json := do
     let uJ := (usF.zip usQ).map fun (u, q) =>
       let uc := ucart m n (ucif u)
       let ev := eigenvals fsqrt fzero 100 uc
-      let npd : Json := match ev with
+      let npdOld : Json := match ev with
         | none => Json.str "ZeroDivisionError"
         | some e => Json.bool (e.x <= 0.0 || e.y <= 0.0 || e.z <= 0.0)
+      let mn := npdMinors uc
+      let npd : Bool := !(mn.x > 0.0 && mn.y > 0.0 && mn.z > 0.0)
       let scale := (ratAbs q.u11 + ratAbs q.u22 + ratAbs q.u33) / 3
       let delta : Rat := scale / 1000000000
       let d := minors q
       Json.mkObj [("ucart", ofM3 uc), ("ueq_aniso", ofFloat (ueqAniso fsqrt c u)),
                   ("ueq_old", ofFloat (ueqAnisoOld fsqrt c u)), ("ucart_old", ofM3 (ucartOld m n (ucif u))),
                   ("iso_branch", Json.bool (isoBranch q)), ("iso_branch_old", Json.bool (isoBranchOld q)),
-                  ("eig", ofOptV3 ev), ("npd", npd),
+                  ("eig_old", ofOptV3 ev), ("npd_old", npdOld), ("npd", Json.bool npd), ("npd_minors", ofV3 mn),
                   ("spec_ueq", ofFloat (ueqSpec g nS u)),
                   ("spec_pd", Json.bool (sylvesterPD q)),
                   ("spec_pd_lo", Json.bool (sylvesterPD (shiftU q (-delta)))),
